@@ -125,6 +125,7 @@ func (g *ProgGen) name() string {
 }
 
 var hostileNums = []string{"0", "1", "2", "3", "10", "0.5", "1.5", "7", "100", "0.0"}
+
 // HostileStrs are string literals that are awkward as attribute names, indexes, patterns or operands.
 var HostileStrs = hostileStrs
 
